@@ -186,6 +186,11 @@ def derivative_case(ctx, r):
     if r.random() < 0.5:
         d["effects"] = ["e"]
     chain = [[r.choice(["P", "D"]), g.preset()] for _ in range(r.choice([1, 1, 2, 3]))]
+    if r.random() < 0.4:
+        # two derivations of the same kind touching different keys of ONE section (must merge, not replace)
+        which = r.choice(["P", "D"])
+        chain += [[which, {"S": {"X": r.choice(U.SCALARS)}}], [which, {"S": {"Y": r.choice(U.SCALARS)}}]]
+        r.shuffle(chain)
     der = {"k": "ds", "id": did, "chain": chain}
     base = {"k": "ds", "id": did}
     prog["root"] = der
